@@ -30,6 +30,17 @@ def toy_model(theta, N, seed):  # noqa: N803
     return x + th.mean()
 
 
+class ModelRefuses(RuntimeError):
+    """raised by toy_model_raising"""
+
+
+def toy_model_raising(theta, N, seed):  # noqa: N803
+    """a pure function of (theta, N, seed) that refuses some of the seeds it is handed (a simulation that diverges for some random draws)"""
+    if int(seed) % 4 == 1:
+        raise ModelRefuses(f"diverged for seed {int(seed)}")
+    return toy_model(theta, N, seed)
+
+
 def toy_model_mut(theta, N, seed):  # noqa: N803
     """the same model, but one that uses its argument as scratch space (legal: the calibrator hands every call its own copy of the row)"""
     out = toy_model(theta, N, seed)
@@ -113,7 +124,7 @@ def build(cfg, folder=None, model=None):
                                       MABCalibrationEnv(len(samplers)))
     else:
         kw["samplers"] = samplers
-    return Calibrator(loss_function=make_loss(cfg["loss"]), real_data=real_data(cfg.get("N", 24)), model=model or (toy_model_mut if cfg.get("model") == "mutating" else toy_model),
+    return Calibrator(loss_function=make_loss(cfg["loss"]), real_data=real_data(cfg.get("N", 24)), model=model or (toy_model_mut if cfg.get("model") == "mutating" else toy_model_raising if cfg.get("model") == "raising" else toy_model),
                       parameters_bounds=[[0.0] * d, [1.0] * d], parameters_precision=[cfg.get("prec", 0.01)] * d,
                       ensemble_size=cfg["ensemble"], verbose=cfg.get("verbose", False), saving_folder=folder,
                       # a simulation length other than the real one only with losses that compare summaries (point-wise losses need equal lengths)
@@ -148,6 +159,13 @@ def run_segments(cfg, segments, use_folder=None):
                 del other
             cal = build(cfg, None if explicit else folder)
             for n, boundary in segments:
+                if cfg.get("model") == "raising":
+                    try:
+                        rets.append(cal.calibrate(n))
+                    except ModelRefuses as e:        # the outcome of this run: which call raised what, and the history so far
+                        rets.append(("raised", type(e).__name__, str(e)))
+                        break
+                    continue
                 rets.append(cal.calibrate(n))
                 if boundary == "restore":
                     from vp.deep import deep, diff
